@@ -266,6 +266,15 @@ func (e *Exec) streamRun(fr *Frame, st *BState, x *ssa.Call) SV {
 			errv = e.freshSV(errT, "cb.err", s.reach, false)
 		}
 		isErr := not(eq(errv.(*IfaceV).Tag, intLit(0)))
+		// per-event transfer obligations: old() is the state at the loop head, stepErr the callback's result
+		if ct := e.contractOf(fr.fn); ct != nil {
+			for i, sc := range ct.StreamStep[ord][inTrace] {
+				env := e.specEnv(fr, out, nil)
+				env.oldSt = post
+				env.bound["stepErr"] = errv
+				e.obligeNamed(out, fmt.Sprintf("stream%d.step[%s].%s", ord, inTrace, strings.TrimPrefix(clauseLabel(sc, "step", i)[len("step"):], ".")), token.NoPos, scal(env.eval(sc.Expr)))
+			}
+		}
 		// back edge: invariant preserved
 		bs := out.clone()
 		bs.reach = and(out.reach, not(isErr))
@@ -300,6 +309,8 @@ func (e *Exec) streamRun(fr *Frame, st *BState, x *ssa.Call) SV {
 	st.reach, st.cells, st.heap, st.ghost = cur.reach, cur.cells, cur.heap, cur.ghost
 	st.ghost["ended"] = boolSV(eq(arm, intLit(2)))
 	ghostTypes["ended"] = types.Typ[types.Bool]
+	st.ghost["runErr"] = res
+	ghostTypes["runErr"] = errT
 	return res
 }
 
